@@ -40,6 +40,11 @@ pub struct Mux {
     pub outbound_ready: VecDeque<vcommon::pipe::PipeEnd>,
     pub inbound_ready: VecDeque<vcommon::pipe::PipeEnd>,
     pub fail: bool,
+    /// poll_close returns Pending until it was polled this many times (0/1 = immediately)
+    pub close_needed: usize,
+    pub close_polls: usize,
+    /// poll_close returned Ready(Ok): the connection was really closed
+    pub close_done: bool,
     pub close_called: bool,
     pub dropped: bool,
     pub addr_change: Option<Multiaddr>,
@@ -66,6 +71,8 @@ pub struct W {
     pub unsupported: Vec<Multiaddr>,
     /// listen_on() returns Err for these
     pub unlistenable: Vec<Multiaddr>,
+    /// close_needed of newly created muxers
+    pub close_needed: usize,
     waker: Option<Waker>,
 }
 
@@ -197,7 +204,8 @@ impl Future for PuppetFut {
             Some(Outcome::Ok(p)) => {
                 s.done = true;
                 s.muxer = Some(nmux);
-                g.muxers.push(Mux::default());
+                let cn = g.close_needed;
+                g.muxers.push(Mux { close_needed: cn, ..Mux::default() });
                 let m = PuppetMuxer { world: self.world.clone(), idx: nmux };
                 Poll::Ready(Ok((p, StreamMuxerBox::new(m))))
             }
@@ -339,10 +347,18 @@ impl StreamMuxer for PuppetMuxer {
         m.waker = Some(cx.waker().clone());
         Poll::Pending
     }
-    fn poll_close(self: Pin<&mut Self>, _cx: &mut Context<'_>) -> Poll<Result<(), Self::Error>> {
+    fn poll_close(self: Pin<&mut Self>, cx: &mut Context<'_>) -> Poll<Result<(), Self::Error>> {
         let mut g = self.world.0.lock().unwrap();
-        g.muxers[self.idx].close_called = true;
-        Poll::Ready(Ok(()))
+        let m = &mut g.muxers[self.idx];
+        m.close_called = true;
+        m.close_polls += 1;
+        if m.close_polls >= m.close_needed {
+            m.close_done = true;
+            Poll::Ready(Ok(()))
+        } else {
+            cx.waker().wake_by_ref();
+            Poll::Pending
+        }
     }
     fn poll(self: Pin<&mut Self>, cx: &mut Context<'_>) -> Poll<Result<StreamMuxerEvent, Self::Error>> {
         let mut g = self.world.0.lock().unwrap();
